@@ -68,6 +68,15 @@ func checkC10(c *Ctx) error {
 			write(filepath.Join(d, "a.yaml"), valid())
 			return []string{"a.yaml", "nothing-*.yaml"}
 		}, expectOK: always(true)},
+		{name: "empty-glob-then-valid", prepare: func(d string) []string {
+			write(filepath.Join(d, "a.yaml"), valid())
+			return []string{"nothing-*.yaml", "a.yaml"}
+		}, expectOK: always(true)},
+		{name: "valid-input-is-symlink", prepare: func(d string) []string {
+			write(filepath.Join(d, "real/data.txt"), valid())
+			_ = os.Symlink(filepath.Join(d, "real/data.txt"), filepath.Join(d, "a.yaml"))
+			return []string{"a.yaml"}
+		}, expectOK: always(true)},
 		{name: "empty-document", prepare: func(d string) []string { write(filepath.Join(d, "a.yaml"), "{}\n"); return []string{"a.yaml"} }, expectOK: always(true)},
 		{name: "empty-file", prepare: func(d string) []string { write(filepath.Join(d, "a.yaml"), ""); return []string{"a.yaml"} }, expectOK: always(true)},
 		{name: "input-is-directory", prepare: func(d string) []string { _ = os.MkdirAll(filepath.Join(d, "adir.yaml"), 0o755); return []string{"adir.yaml"} }, expectOK: always(false)},
@@ -216,6 +225,26 @@ func checkC10(c *Ctx) error {
 			for k := range args2 {
 				if args2[k] == "-o" {
 					args2[k+1] = fresh
+				}
+			}
+			if j.cs.name == "empty-glob-then-valid" || j.cs.name == "valid-input-is-symlink" {
+				// reference: the same content read through one plain pattern
+				if b, err := os.ReadFile(filepath.Join(dir, "a.yaml")); err == nil {
+					_ = work.WriteFile(filepath.Join(dir, "plain-copy.yaml"), b)
+					var a3 []string
+					skip := false
+					for _, a := range args2 {
+						if skip {
+							skip = false
+							continue
+						}
+						if a == "-i" {
+							skip = true
+							continue
+						}
+						a3 = append(a3, a)
+					}
+					args2 = append([]string{a3[0], "-i", "plain-copy.yaml"}, a3[1:]...)
 				}
 			}
 			run2 := cli.Do(w, "", nil, dir, fresh, args2...)
